@@ -32,13 +32,14 @@ def run(tier):
         pairs = [("st4", "st4"), ("st4", "st6")]
         scan_u = [2.0 * i for i in range(1, 21)]        # 2, 4, ..., 40 m/s
         nsingle = [0]
+        unjudged = [0]
         for (gname, dname) in pairs:
             bal = create_balance(gname, dname)
-            for N in ([24] if quick else [16, 24, 36]):
+            for N in ([24] if quick else [16, 24, 36, 24, 16, 36, 24]):
                 dirs = [j * 360.0 / N for j in range(N)]
                 for bi_, B in enumerate([1, 4, -7, -107] if quick else [1, 2, 5, 8, -7, -107]):
                     f = f_log if (bi_ + len(gname + dname)) % 2 else f_lin
-                    vds, depths = [], []
+                    vds, depths, seas = [], [], []
                     panel = B < 0
                     panel_list = PANEL2 if B < -100 else PANEL
                     B = abs(B) % 100
@@ -51,7 +52,9 @@ def run(tier):
                             # guess from the equilibrium range: the solver has to travel through the whole bracket search
                             fp, hs = panel_list[b]
                             f = f_lin
-                        vds.append(pc.sea(f, dirs, fp, hs, 40.0 if panel else rng.uniform(0, 360), 30.0 if panel else rng.uniform(25, 45)))
+                        sea_ = (fp, hs, 40.0 if panel else rng.uniform(0, 360), 30.0 if panel else rng.uniform(25, 45))
+                        seas.append(list(sea_))
+                        vds.append(pc.sea(f, dirs, *sea_))
                         depths.append(np.inf if panel else rng.choice([np.inf, np.inf, 40.0]))
                     # one member without dissipation (a very low swell) and the empty spectrum
                     if B >= 4 and not panel:
@@ -61,16 +64,21 @@ def run(tier):
                         order = [B - 2, 0, B - 1] + list(range(1, B - 2))
                         if (len(gname + dname) + N) % 2:
                             order = order[::-1]
-                        vds, depths = [vds[i] for i in order], [depths[i] for i in order]
+                        seas[B - 1], seas[B - 2] = [0.07, 0.05, 100.0, 15.0], "empty"
+                        vds, depths, seas = [vds[i] for i in order], [depths[i] for i in order], [seas[i] for i in order]
                     if panel:
                         # light-wind seas directly before seas that need a strong wind
                         vds = vds + [pc.sea(f, dirs, 0.22, 2.0, 40.0, 30.0), pc.sea(f, dirs, 0.18, 3.2, 40.0, 30.0)]
                         depths = depths + [np.inf, np.inf]
+                        seas = seas + [[0.22, 2.0, 40.0, 30.0], [0.18, 3.2, 40.0, 30.0]]
                         B = len(vds)
                     spec = pc.spectrum(f, dirs, vds, depths)
                     with_rate = (bi_ % 2 == 1) if quick else rng.random() < 0.5
                     # rate of change of a turning and growing sea: (spectrum rotated by two bins - spectrum) / 1 h + growth
-                    rates = [(np.roll(np.asarray(v), 2, axis=1) - np.asarray(v)) / 3600.0 + 1e-5 * np.asarray(v) for v in vds]
+                    # (two bins in six hours: with a turn of two bins per hour the supplied rate of change is as large as the dissipation
+                    # and the balance - discontinuous wherever a bin becomes actively forced - has jumps the solver cannot always handle:
+                    # known finding, exercised by the fixed probe below)
+                    rates = [(np.roll(np.asarray(v), 2, axis=1) - np.asarray(v)) / (6 * 3600.0) + 1e-5 * np.asarray(v) for v in vds]
                     if not panel and not with_rate and (bi_ == 0 or rng.random() < 0.5):
                         # a sea abating in place (no bin grows): dE/dt = -E / 24 h
                         with_rate = True
@@ -102,7 +110,9 @@ def run(tier):
                     scans = np.array([F(np.full(B, u)) for u in scan_u])          # (20, B)
                     evals += len(scan_u) * B
                     for b in range(B):
-                        cb = dict(ctx, point=b, u10=float(u10[b]), bulk_dissipation=float(dbulk[b]))
+                        cb = dict(ctx, point=b, u10=(float(u10[b]) if u10[b] == u10[b] else "nan"), bulk_dissipation=float(dbulk[b]), sea=seas[b], depth=str(depths[b]),
+                                  rate=("none" if dEdt is None else "abating" if float(np.max(rates[b])) <= 0 else "turning"),
+                                  frequency_grid=("log" if f is f_log else "lin"))
                         distinct.add((gname, dname, N, B, b, with_rate, round(float(dbulk[b]), 12)))
                         if dbulk[b] == 0.0:
                             if u10[b] != 0.0:
@@ -121,9 +131,17 @@ def run(tier):
                             if math.isnan(u10[b]):
                                 cell = 0
                             else:
-                                cell = sum(1 for u, _v in pts if u <= u10[b])       # u10 in [pts[cell], pts[cell+1])
-                                cell = cell if 1 <= cell <= len(sg) - 1 else len(sg)
-                            tr.add({"kind": "root", "what": "u10 %s/%s N=%d B=%d point=%d" % (gname, dname, N, B, b), "sg": sg, "res": cell, "finite": 1})
+                                def cell_of(x):
+                                    c_ = sum(1 for u, _v in pts if u <= x)          # x in [pts[c_-1], pts[c_])
+                                    return c_ if 1 <= c_ <= len(sg) - 1 else len(sg)
+                                cell = cell_of(u10[b])
+                                # a root within the closure tolerance (0.03 m/s) of a scan point belongs to both neighbouring cells
+                                changes = [i + 1 for i in range(len(sg) - 1) if sg[i] * sg[i + 1] < 0]
+                                for alt in (cell_of(u10[b] - 0.03), cell_of(u10[b] + 0.03)):
+                                    if len(changes) == 1 and alt == changes[0]:
+                                        cell = alt
+                            tr.add({"kind": "root", "what": "u10 %s/%s N=%d B=%d point=%d" % (gname, dname, N, B, b), "sg": sg, "res": cell, "finite": 1, "ctx": cb,
+                                    "scan": [[u, (v if v == v else "nan")] for u, v in zip(scan_u, scans[:, b].tolist())]})
                             if sum(1 for i in range(len(sg) - 1) if sg[i] * sg[i + 1] < 0) == 1 and 0 not in sg:
                                 nsingle[0] += 1
                         if not math.isnan(u10[b]):
@@ -134,8 +152,12 @@ def run(tier):
                             # value at the estimate is what a step of 0.015 m/s along the local slope explains (the balance may be
                             # undefined on one side: the roughness iteration has no solution for very light winds)
                             slopes = [abs(v - mid) / 0.03 for v in (lo, hi) if math.isfinite(v)]
-                            if not (lo * hi <= 0 or abs(mid) <= 2e-3 * abs(dbulk[b]) or (slopes and abs(mid) <= 0.015 * max(slopes))):
-                                chk.violation("closure", "input + dissipation does not vanish at the estimated U10 (no sign change within +-0.03 m/s)",
+                            if not math.isfinite(mid):
+                                unjudged[0] += 1      # the reference evaluation of the balance is undefined at the estimate itself: no verdict
+                            elif not (lo * hi <= 0 or abs(mid) <= 2e-3 * abs(dbulk[b]) or (slopes and abs(mid) <= 0.015 * max(slopes))):
+                                chk.violation("closure:%s:N=%d:%s:rate=%s:sea=%s:depth=%s" % (cb["pair"], N, cb["frequency_grid"], cb["rate"],
+                                                                                            (",".join("%.3g" % x for x in seas[b][:3]) if isinstance(seas[b], list) else seas[b]), depths[b]),
+                                              "input + dissipation does not vanish at the estimated U10 (no sign change within +-0.03 m/s)",
                                               dict(cb, F_minus=float(lo), F_at=float(mid), F_plus=float(hi)))
                     # batch independence
                     if B > 1:
@@ -147,8 +169,35 @@ def run(tier):
                         if not np.allclose(r1["u10"].values[0], u10[i], rtol=1e-9, equal_nan=True):
                             chk.violation("batch-independence", "a point of a batch gets a different wind estimate than alone",
                                           dict(ctx, point=i, alone=float(r1["u10"].values[0]), in_batch=float(u10[i])))
+        # fixed probe of the known finding (known_findings.json): a sea turning by two direction bins (45 degrees) per hour on a 16-bin grid.
+        # The Newton step is computed from a finite-difference derivative taken across a jump of the balance; the step is tiny and the solver
+        # reports convergence away from the root.  Kept so that the finding stays reproduced and its disappearance is noticed.
+        try:
+            balp = create_balance("st4", "st4")
+            dirs16 = [j * 22.5 for j in range(16)]
+            seap = (0.18792838158278577, 1.5963268201624945, 358.79323557289274, 39.976311918212915)
+            vdp = pc.sea(f_log, dirs16, *seap)
+            specp = pc.spectrum(f_log, dirs16, [vdp], [40.0])
+            ratep = (np.roll(np.asarray(vdp), 2, axis=1) - np.asarray(vdp)) / 3600.0 + 1e-5 * np.asarray(vdp)
+            up = float(estimate_u10_from_source_terms(specp, balp, time_derivative_spectrum=pc.spectrum(f_log, dirs16, [ratep], [40.0]))["u10"].values[0])
+            dbp = float(balp.dissipation.bulk_rate(specp).values[0])
+            ddp = balp.dissipation.mean_direction_degrees(specp).values
+            dfp, ddd = specp.frequency_step.values, specp.direction_step.values
+
+            def Fp(x):
+                g = balp.generation.rate(specp, pc.da([x]), pc.da(ddp)).values
+                return float(np.sum(g * dfp[None, :, None] * ddd[None, None, :]) + dbp - np.sum(np.where(g > 0, ratep[None], 0.0) * dfp[None, :, None] * ddd[None, None, :]))
+            evals += 4
+            if not math.isnan(up):
+                lo, mid, hi = Fp(up - 0.03), Fp(up), Fp(up + 0.03)
+                if not (lo * hi <= 0 or abs(mid) <= 2e-3 * abs(dbp)):
+                    chk.violation("closure:known-probe:st4/st4:N=16:log:turning-two-bins-per-hour:depth=40", "input + dissipation - rate of change does not vanish at the estimated U10",
+                                  {"u10": up, "F_minus": lo, "F_at": mid, "F_plus": hi, "bulk_dissipation": dbp})
+        except Exception as e:
+            chk.violation("raise:known-probe:%s" % type(e).__name__, "the fixed probe raised", {"error": str(e)[:300]})
         tr.validate(chk, "C11")
         chk.set("scans_with_a_single_sign_change", nsingle[0])
+        chk.set("estimates_where_the_reference_balance_is_undefined", unjudged[0])
         if nsingle[0] == 0:
             chk.machinery("no scan of the balance showed a single sign change: the non-degeneracy clause was not exercised")
         # histories of one long-lived balance (BalanceSession.tla behaviours): evaluations interleaved with parameter updates
